@@ -328,10 +328,21 @@ def run(ctx, rep):
                     continue          # nothing to read and no error: either treatment is harmless
                 n_ev += 1
                 dropped, queued = [], []
-                st_ = {}
-                MIp.call_method(fhp.node, st_, [[(7, evt)]], {"__calls__": {
-                    "self._remove_from_inactive_connection": lambda fd: None, "self._drop_connection": dropped.append,
-                    "self._active_connection_queue.put": queued.append, "self._add_inactive_connection": lambda fd: None}})
+
+                class _Obj:
+                    mi_native = True
+
+                    def __init__(self, **kw):
+                        self.__dict__.update(kw)
+                noop = lambda *a, **k: None
+                st_ = {"poll_object": _Obj(unregister=noop, register=noop, modify=noop, poll=lambda *a: []),
+                       "_active_connection_queue": _Obj(put=queued.append, get=noop),
+                       "fd_to_conn": {7: _Obj(close=noop, fileno=lambda: 7)},
+                       "logger": _Obj(debug=noop, info=noop, warning=noop, warn=noop, error=noop, exception=noop)}
+                tp_meths = {n_: m_.node for n_, m_ in ctx.cls(SRV + ".ThreadPoolServer").methods.items()
+                            if n_ not in ("_drop_connection", "_handle_poll_result")}
+                MIp.call_method(fhp.node, st_, [[(7, evt)]], {"__calls__": {"self._drop_connection": dropped.append},
+                                                              "__methods__": tp_meths, "__max_iter__": 100})
                 if err and (dropped != [7] or queued):
                     bad_p.append("event %r (error/hang-up condition): dropped %s, queued %s" % (evt, dropped, queued))
                 if not err and (queued != [7] or dropped):
